@@ -107,6 +107,7 @@ type rtDriver struct {
 	nextCh   int
 	cl       []*rtClient
 	lastQ    string
+	lastC    string
 	ticks    int
 }
 
@@ -503,9 +504,17 @@ func (d *rtDriver) Run(x *sched.Exec, raw json.RawMessage) json.RawMessage {
 			}
 		}
 		if libBusy() {
+			// not quiescent: still report which instances are inside the function and which of them
+			// have a live context (judged for "cancelled without cause" only)
+			live, active := d.liveSnapshot()
+			if key := fmt.Sprint(live, active); key != d.lastC {
+				d.lastC = key
+				x.Log(trace.E{"ev": "cstate", "live": live, "active": active})
+			}
 			return
 		}
 		live, active := d.liveSnapshot()
+		d.lastC = fmt.Sprint(live, active)
 		blk := []int{}
 		for _, c := range d.cl {
 			if c.inflight != 0 && x.Blocked(c.c) {
